@@ -138,8 +138,10 @@ Section IntervalModel.
   Definition inth_root (a b : ival) : ival :=
     let bpt := i_trunc I (lower b) in
     {| iv := (let r := b_nth_root B (iv a) bpt in
-              (if i_isnan I (fst r) && i_eqb I (lower a) (i_ninf I) then i_ninf I else fst r,
-               if i_isnan I (snd r) && i_eqb I (upper a) (i_pinf I) then i_pinf I else snd r));
+              let lo := if i_isnan I (fst r) && i_eqb I (lower a) (i_ninf I) then i_ninf I else fst r in
+              let hi := if i_isnan I (snd r) && i_eqb I (upper a) (i_pinf I) then i_pinf I else snd r in
+              (* the rescued bounds replace Boost's only when BOTH are numbers (interval.hpp: `if (!isnan(lo) && !isnan(hi)) i = I(lo, hi)`) *)
+              if negb (i_isnan I lo) && negb (i_isnan I hi) then (lo, hi) else r);
        nanf := nanf a || nanf b
                || (i_leb I (lower a) (i_zero I) && negb (Z.testbit bpt 0)) |}.   (* !(bPt & 1) *)
 
